@@ -69,7 +69,7 @@ theorem handleNormal_benign (cfg : Cfg) (o : Option Nat) (cl : Client) (m : Msg)
   case pointer mk x y =>
     have h1 : ¬ (o.isSome = true ∧ o ≠ some cl.id) := by
       rcases hfree with h | h <;> simp [h]
-    simp only [handleNormal, h1, if_false, hrw, hnd, hnp, expected1, nextScale, sx, sy]
+    simp only [handleNormal, ptrDeliver, h1, if_false, hrw, hnd, hnp, expected1, nextScale, sx, sy]
     by_cases hm : mk = 0 <;> simp [hm, hn, hop]
 
 /-- **one message**: a benign message of a permitted client is consumed exactly, produces exactly
